@@ -480,6 +480,11 @@ def run_property(pid, queries, meta, tier, seed, jobs=None, evidence_name=None):
     kf_open = {k for k, e in kf.items() if e.get('status') == 'open' and e.get('property') == pid}
     # queries restricted to a known finding run only while that finding is open
     qs = [q for q in queries if (q.kf_only is None or q.kf_only in kf_open)]
+    _seen = set(); _uniq = []
+    for q in qs:                      # a spec that generates the same query twice must not race on the scratch files
+        if q.name in _seen: continue
+        _seen.add(q.name); _uniq.append(q)
+    qs = _uniq
     jobs = jobs or int(os.environ.get('VERIF_JOBS', '0')) or max(1, (os.cpu_count() or 4) - 2)
     results = []
     try:
